@@ -200,11 +200,34 @@ func genC03(t *rapid.T) (histCase, bool, []string) {
 				x := p.v.Elems[0]
 				src, res = p.name+" without "+r.lit(x), model.Without(p.v, x)
 			case "join":
-				// join on a with a small fixed relation
-				xh := []string{"a", "z"}
-				x := model.SetOf(model.Tup("a", 0, "z", 7), model.Tup("a", 1, "z", 8), model.Tup("a", 3, "z", 9))
-				if inNamesList(h, "a") {
-					src, res = p.name+" <&> {|a, z| (0, 7), (1, 8), (3, 9)}", model.Join("<&>", p.v, x, h, xh)
+				// join with a small relation that adds one fresh attribute, either
+				// matching on a or as a cross product; joins of joins branch too
+				var fresh string
+				for _, n := range []string{"z", "y", "x", "w", "u"} {
+					if !inNamesList(h, n) {
+						fresh = n
+						break
+					}
+				}
+				if chance(t, "otherfresh", 50) {
+					for _, n := range []string{"u", "w", "x", "y", "z"} {
+						if !inNamesList(h, n) {
+							fresh = n
+							break
+						}
+					}
+				}
+				if fresh == "" {
+					break
+				}
+				if inNamesList(h, "a") && chance(t, "onA", 60) {
+					xh := []string{"a", fresh}
+					x := model.SetOf(model.Tup("a", 0, fresh, 7), model.Tup("a", 1, fresh, 8), model.Tup("a", 3, fresh, 9))
+					src, res = p.name+" <&> {|a, "+fresh+"| (0, 7), (1, 8), (3, 9)}", model.Join("<&>", p.v, x, h, xh)
+				} else {
+					xh := []string{fresh}
+					x := model.SetOf(model.Tup(fresh, 4))
+					src, res = p.name+" <&> {|"+fresh+"| (4)}", model.Join("<&>", p.v, x, h, xh)
 				}
 			case "where":
 				src = p.name + " where .a != 1"
